@@ -148,3 +148,13 @@ pub fn vpanic() -> !
 {
     panic!()
 }
+
+// The "consensus safety violation" assertions of the finality tracker fire only if the node holds
+// conflicting certificates, i.e. if global agreement (C01, not decidable by contracts) is already broken.
+// They are modelled as ASSUMPTIONS (the call is a deliberate fail-stop): listed in every evidence file.
+#[verifier::external_body]
+pub fn vassume_safety(b: bool)
+    ensures b
+{
+    assert!(b)
+}
